@@ -40,7 +40,7 @@ def _options(method, variant=0):
 
 def cases_filter_chain(methods, tier):
     # per realization: o = succeeds, O = NaN in the objective only, C = NaN in the first (ranked) constraint only, D = NaN in the second constraint only
-    pats = ["ooo", "oCo", "Ooo", "oOC", "CoO", "oDo", "DoC"] if tier == "quick" else ["".join(p) for p in itertools.product("oOCD", repeat=R)]
+    pats = ["ooo", "oCo", "Ooo", "oOC", "CoO", "oDo", "DoC", "OCD", "OOO"] if tier == "quick" else ["".join(p) for p in itertools.product("oOCD", repeat=R)]
     for method in methods:
         bks = ("upper", "lower", "equality") if method == "cvar-constraint" else ("upper",)
         for bk in bks:
@@ -130,6 +130,9 @@ def scn_filter_chain(T, case, prefix):
         return
     T.prove(prefix + ".chain.failed_flags_cover_failures_in_any_column", [bool(v) for v in res.realizations.failed_realizations] == failed)
     m = R - sum(failed)
+    # ... and conversely: when the filter can select no successful member (sort: the window starts beyond the successes; CVaR: nothing
+    # succeeded) the evaluation ends with TOO_FEW_REALIZATIONS instead of producing a value - it has not, here
+    T.prove(prefix + ".chain.a_filter_that_can_select_no_successful_member_ends_the_evaluation", not ((options["first"] >= m) if method.startswith("sort") else (m == 0)))
     if m == 0:
         T.prove(prefix + ".chain.no_functions_when_every_realization_failed", res.functions is None)
         return
